@@ -153,17 +153,7 @@ def run(prog: Program, rep: Report, tier: str) -> None:
     rep.extra["programs"] = len(derived) + len(spec["responses"]) + 1
 
 
-def restrict(v: Any, pc: List[T.Term]) -> Any:
-    """Specialise a term to a path: choices whose guard (or its negation) is on the path are resolved."""
-    from ..interp import neg
-    if isinstance(v, tuple):
-        if len(v) == 4 and v[0] == "ite":
-            if v[1] in pc:
-                return restrict(v[2], pc)
-            if neg(v[1]) in pc:
-                return restrict(v[3], pc)
-        return tuple(restrict(x, pc) for x in v)
-    return v
+from ..frames import restrict  # noqa: E402  (shared: resolves ite/alt/lookup by the path's guards)
 
 
 def core(v: Any) -> Any:
